@@ -154,6 +154,32 @@ type runnablePipeline struct {
 	// a transient error the Kill in stopForceful is a no-op, and this marker is
 	// what keeps StartWithBackoff from restarting the pipeline.
 	intentionalStop atomic.Bool
+	// stopRequests counts the stop requests that currently hold intentionalStop
+	// (guarded by stopMu): every graceful stop that is in flight or was
+	// accepted and every force stop. A graceful stop that was not accepted only
+	// takes back its OWN request, so it can not erase the mark of a force stop
+	// (or of another graceful stop) that was accepted in the meantime.
+	stopMu       sync.Mutex
+	stopRequests int
+}
+
+// markIntentionalStop records a stop request on this run.
+func (rp *runnablePipeline) markIntentionalStop() {
+	rp.stopMu.Lock()
+	defer rp.stopMu.Unlock()
+	rp.stopRequests++
+	rp.intentionalStop.Store(true)
+}
+
+// withdrawIntentionalStop takes back the request of a graceful stop that was
+// not accepted and clears the marker if no other stop request holds it.
+func (rp *runnablePipeline) withdrawIntentionalStop() {
+	rp.stopMu.Lock()
+	defer rp.stopMu.Unlock()
+	rp.stopRequests--
+	if rp.stopRequests == 0 {
+		rp.intentionalStop.Store(false)
+	}
 }
 
 // ConnectorService can fetch and create a connector instance, and report when
@@ -364,10 +390,12 @@ func (s *Service) Stop(ctx context.Context, pipelineID string, force bool) error
 		// goroutine must finalize a user stop instead of restarting the pipeline
 		// (mirrors the arch-v2 engine). The marker is taken back if no stop was
 		// accepted, so a later unrelated failure is still recovered.
-		marked := rp.intentionalStop.CompareAndSwap(false, true)
+		// Only this call's own request is taken back: the marker stays if
+		// another stop (a force stop, an accepted graceful stop) holds it.
+		rp.markIntentionalStop()
 		err := s.stopGraceful(ctx, rp, nil)
-		if err != nil && marked {
-			rp.intentionalStop.Store(false)
+		if err != nil {
+			rp.withdrawIntentionalStop()
 		}
 		return err
 	case true:
@@ -404,7 +432,7 @@ func (s *Service) stopForceful(ctx context.Context, rp *runnablePipeline) error 
 		Msg("force stopping pipeline")
 
 	// Creates a FatalError to prevent the pipeline from recovering.
-	rp.intentionalStop.Store(true)
+	rp.markIntentionalStop()
 	rp.t.Kill(cerrors.FatalError(pipeline.ErrForceStop))
 	for _, n := range rp.n {
 		if node, ok := n.(stream.ForceStoppableNode); ok {
